@@ -6,6 +6,7 @@
 From Coq Require Import ZArith List Bool Lia.
 Import ListNotations.
 Require Import Amoco.C06.RV Amoco.C06.RVProofs Amoco.C06.Flags.
+Require Amoco.C06.X86Alu Amoco.C06.X86AluProofs.
 Open Scope Z_scope.
 
 (* AddWithCarry / SubWithBorrow: for every width (p = 2^(n-1) is any positive number here) and all operands,
@@ -26,6 +27,38 @@ Theorem C06_sub_overflow_is_signed_overflow : forall p x y c, 0 < p -> 0 <= x < 
   snd (sub_with_borrow p x y c) = true <-> ~ (- p <= tosigned p x - tosigned p y - c < p).
 Proof. exact sub_overflow_is_signed_overflow. Qed.
 Print Assumptions C06_sub_overflow_is_signed_overflow.
+
+(* the x86 / x86-64 integer ALU written from the Intel SDM (Amoco.C06.X86Alu.alu): after CMP a, b the condition codes mean
+   what the manual says, for every operand width: E <-> a = b, B <-> a <u b, BE <-> a <=u b, L <-> a <s b, LE <-> a <=s b;
+   odd condition codes are the negations *)
+Theorem C06_x86_cmp_condition_codes : forall p a b, 0 < p -> 0 <= a < 2 * p -> 0 <= b < 2 * p ->
+  let f := X86AluProofs.cmp_flags p a b in
+  (X86Alu.cond 4 f = true <-> a = b) /\ (X86Alu.cond 2 f = true <-> a < b) /\ (X86Alu.cond 6 f = true <-> a <= b) /\
+  (X86Alu.cond 12 f = true <-> tosigned p a < tosigned p b) /\ (X86Alu.cond 14 f = true <-> tosigned p a <= tosigned p b).
+Proof. exact X86AluProofs.cmp_conditions. Qed.
+Print Assumptions C06_x86_cmp_condition_codes.
+Theorem C06_x86_negated_condition_codes : forall cc f, 0 <= cc -> X86Alu.cond (2 * cc + 1) f = negb (X86Alu.cond (2 * cc) f).
+Proof. exact X86AluProofs.cond_odd. Qed.
+Print Assumptions C06_x86_negated_condition_codes.
+(* the manual's CF / OF of ADC and SBB are exactly the boolean formulas amoco computes them with *)
+Theorem C06_x86_adc_is_AddWithCarry : forall p a b (cin : bool), 0 < p -> 0 <= a < 2 * p -> 0 <= b < 2 * p ->
+  let c := if cin then 1 else 0 in
+  let '(r, cf, ovf) := add_with_carry p a b c in
+  fst (X86Alu.alu X86Alu.ADC p a b cin) = Some r /\ X86Alu.CF (snd (X86Alu.alu X86Alu.ADC p a b cin)) = cf /\
+  X86Alu.OF (snd (X86Alu.alu X86Alu.ADC p a b cin)) = ovf.
+Proof. exact X86AluProofs.adc_flags_are_AddWithCarry. Qed.
+Print Assumptions C06_x86_adc_is_AddWithCarry.
+Theorem C06_x86_sbb_is_SubWithBorrow : forall p a b (cin : bool), 0 < p -> 0 <= a < 2 * p -> 0 <= b < 2 * p ->
+  let c := if cin then 1 else 0 in
+  let '(r, cf, ovf) := sub_with_borrow p a b c in
+  fst (X86Alu.alu X86Alu.SBB p a b cin) = Some r /\ X86Alu.CF (snd (X86Alu.alu X86Alu.SBB p a b cin)) = cf /\
+  X86Alu.OF (snd (X86Alu.alu X86Alu.SBB p a b cin)) = ovf.
+Proof. exact X86AluProofs.sbb_flags_are_SubWithBorrow. Qed.
+Print Assumptions C06_x86_sbb_is_SubWithBorrow.
+Theorem C06_x86_sub_add_inverse : forall p a b, 0 < p -> 0 <= a < 2 * p -> 0 <= b < 2 * p ->
+  forall r, fst (X86Alu.alu X86Alu.SUB p a b false) = Some r -> fst (X86Alu.alu X86Alu.ADD p r b false) = Some a.
+Proof. exact X86AluProofs.sub_add_inverse. Qed.
+Print Assumptions C06_x86_sub_add_inverse.
 
 (* the RISC-V reference *)
 Theorem C06_rv_sext_range : forall v n, 0 < n -> 0 <= v < 2 ^ n -> - 2 ^ (n - 1) <= sext v n < 2 ^ (n - 1).
@@ -61,5 +94,8 @@ Example C06_nonvacuous :
   option_map (fun r => nth 3 (r_regs r) 0) (step 32 1122739 st) = Some 1 /\
   option_map r_pc (step 32 1082467 st) = Some 4104 /\
   option_map (fun r => nth 1 (r_regs r) 0) (step 32 4247 st) = Some 8192 /\
-  add_with_carry 128 255 1 0 = (0, true, false) /\ sub_with_borrow 128 128 1 0 = (127, false, true).
+  add_with_carry 128 255 1 0 = (0, true, false) /\ sub_with_borrow 128 128 1 0 = (127, false, true) /\
+  (* cmp al=0x80, bl=0x01 at width 8: below is false, signed less is true *)
+  X86Alu.cond 2 (X86AluProofs.cmp_flags 128 128 1) = false /\ X86Alu.cond 12 (X86AluProofs.cmp_flags 128 128 1) = true /\
+  X86Alu.fword (snd (X86Alu.alu X86Alu.ADD 128 255 1 false)) = 1 + 4 + 16 + 64.
 Proof. vm_compute. repeat split; reflexivity. Qed.
